@@ -230,6 +230,18 @@ def o_roundtrip(rec: Recorder, case, soft=False):
         return
     if observe(ctx, bank) != before:
         rec.fail(f"C10/export-mutates/{via}", "exporting / copying changed the original context", "roundtrip", case, None, None, soft=soft)
+        return
+    # the exported dictionary belongs to the caller: editing it must not reach back into the context
+    for resolve in (False, True):
+        d = ctx.to_dict(resolve=resolve)
+        for v in d.values():
+            if isinstance(v, list):
+                v.append("hex_md5")
+                v.reverse()
+        d["schemes"] = []
+        if observe(ctx, bank) != before:
+            rec.fail("C10/export-aliases-internal-state", "editing the dictionary returned by to_dict() changes the context", "roundtrip", case, None, None, soft=soft)
+            return
 
 
 @oracle(PROPERTY, "update_overlay")
@@ -356,7 +368,100 @@ def o_faulty(rec: Recorder, case, soft=False):
     return raised_after_progress and (k >= 2 or pos > 0)
 
 
-ORACLES = {"roundtrip": o_roundtrip, "update_overlay": o_update, "fault": o_fault, "faulty_hasher": o_faulty}
+def custom_hasher():
+    """a well-behaved custom hasher that is not in the registry"""
+    import passlib.utils.handlers as uh
+
+    class vp_custom_hash(uh.HasSalt, uh.GenericHandler):
+        name = "vp_custom_hash"
+        setting_kwds = ("salt", "salt_size")
+        checksum_chars = uh.LOWER_HEX_CHARS
+        checksum_size = 16
+        min_salt_size = max_salt_size = 4
+        salt_chars = uh.LOWER_HEX_CHARS
+        ident = "$vpc$"
+
+        @classmethod
+        def from_string(cls, hash):
+            hash = uh.to_unicode_for_identify(hash) if not isinstance(hash, str) else hash
+            if not hash.startswith(cls.ident) or hash.count("$") != 3:
+                raise uh.exc.InvalidHashError(cls)
+            salt, chk = hash[len(cls.ident):].split("$")
+            return cls(salt=salt, checksum=chk or None)
+
+        def to_string(self):
+            return f"{self.ident}{self.salt}${self.checksum or ''}"
+
+        def _calc_checksum(self, secret):
+            if isinstance(secret, str):
+                secret = secret.encode("utf-8")
+            return hashlib.md5(self.salt.encode("ascii") + secret).hexdigest()[:16]
+
+    return vp_custom_hash
+
+
+@oracle(PROPERTY, "custom_hasher")
+def o_custom(rec: Recorder, case, soft=False):
+    """case: {position, how, change}: a context holding a custom unregistered hasher object is copied / updated / exported with resolve=True;
+    the result decides like a context built directly from the expected configuration"""
+    from passlib.context import CryptContext
+
+    custom = custom_hasher()
+    names = ["md5_crypt", "sha256_crypt"]
+    schemes = list(names)
+    schemes.insert(case["position"], custom)
+    base = {"schemes": schemes, "sha256_crypt__rounds": 1500, "deprecated": ["md5_crypt"]}
+    change = dict(case["change"])
+    ctx = CryptContext(**base)
+    bank = [make_hash("md5_crypt", None), make_hash("sha256_crypt", 1500), make_hash("sha256_crypt", 1200), custom.hash(PW), "$unknown$hash"]
+    before = observe(ctx, bank)
+    how = case["how"]
+    merged = dict(base)
+    merged.update(change)
+    expect = observe(CryptContext(**merged), bank)
+    if how == "update":
+        st, r = call(ctx.update, **change)
+        other = ctx
+    elif how == "load-update":
+        st, r = call(ctx.load, dict(change), update=True)
+        other = ctx
+    elif how == "copy":
+        st, other = call(ctx.copy, **change)
+    elif how == "dict-resolve":
+        st, other = call(lambda: CryptContext(**dict(ctx.to_dict(resolve=True), **change)))
+    else:
+        st, other = call(lambda: (lambda c: (c.load(ctx), c.update(**change), c)[-1])(CryptContext(["des_crypt"])))
+    if st == "err":
+        rec.fail(f"C10/custom-hasher/{how}-raises", f"{how} on a context holding a custom unregistered hasher raises", "custom_hasher", case, repr(other if how in ("copy", "dict-resolve", "load-ctx") else r), None, soft=soft)
+        return
+    d = diff(observe(other, bank), expect)
+    if d:
+        k = sorted(d, key=str)[0]
+        rec.fail(f"C10/custom-hasher/{how}-differs", f"{how} on a context holding a custom unregistered hasher gives other decisions than the expected configuration", "custom_hasher", case,
+                 {str(x): repr(d[x][0])[:120] for x in list(d)[:3]}, {str(x): repr(d[x][1])[:120] for x in list(d)[:3]}, soft=soft)
+        return
+    if how in ("copy", "dict-resolve", "load-ctx") and observe(ctx, bank) != before:
+        rec.fail(f"C10/custom-hasher/{how}-mutates", "the original context changed", "custom_hasher", case, None, None, soft=soft)
+
+
+def t_custom(rec, seed, tier):
+    changes = [{}, {"sha256_crypt__rounds": 1200}, {"deprecated": ["auto"]}, {"default": "sha256_crypt"}, {"vp_custom_hash__salt_size": 4}, {"admin__context__default": "sha256_crypt"},
+               {"deprecated": ["vp_custom_hash"]}, {"default": "vp_custom_hash"}]
+    n = 0
+    for pos in range(3):
+        for how in ("update", "load-update", "copy", "dict-resolve", "load-ctx"):
+            for ch in changes:
+                if pos == 0 and ch.get("deprecated") == ["vp_custom_hash"]:
+                    continue  # would deprecate the default scheme: invalid configuration
+                rec.ev()
+                rec.nt("custom", pos, how, sorted(ch))
+                o_custom(rec, {"position": pos, "how": how, "change": ch}, soft=True)
+                n += 1
+    rec.sample("custom-hasher", {"positions": [0, 1, 2], "changes": len(changes)})
+    rec.subrecord("custom-hasher", exhaustive=True, cases=n)
+
+
+ORACLES = {"custom_hasher": o_custom, "roundtrip": o_roundtrip, "update_overlay": o_update, "fault": o_fault, "faulty_hasher": o_faulty}
 
 
 # ---- tasks -------------------------------------------------------------------------------------------------
@@ -490,4 +595,5 @@ def tasks(tier):
         ts.append({"name": f"faults-{b}", "fn": "t_faults", "kw": {"base_index": b}})
         ts.append({"name": f"faulty-hasher-{b}", "fn": "t_faulty", "kw": {"base_index": b}})
     ts.append({"name": "hyp-faults", "fn": "t_hyp_faults"})
+    ts.append({"name": "custom-hasher", "fn": "t_custom"})
     return ts
